@@ -137,6 +137,9 @@ func scalarText(v interface{}) string {
 	return fmt.Sprintf("%v", v)
 }
 
+// refTextKey is the text key refElems assumes; C03 switches it to "_text" while the global key prefix is "_".
+var refTextKey = "#text"
+
 // refElems: the elements a (key, value) entry denotes (default prefixes '-' and '#text').
 func refElems(key string, v interface{}) []*XElem {
 	switch x := v.(type) {
@@ -162,11 +165,11 @@ func refElems(key string, v interface{}) []*XElem {
 				e.Attrs = append(e.Attrs, XAttr{Local: k[1:], Value: scalarText(x[k])})
 			}
 		}
-		if tv, ok := x["#text"]; ok {
+		if tv, ok := x[refTextKey]; ok {
 			e.Items = append(e.Items, XItem{Kind: kText, Text: scalarText(tv)})
 		}
 		for _, k := range keys {
-			if isAttr(k) || k == "#text" {
+			if isAttr(k) || k == refTextKey {
 				continue
 			}
 			for _, c := range refElems(k, x[k]) {
